@@ -82,6 +82,98 @@ func scalarAfter(r0 int32, i int) int32 {
 	return int32(r)
 }
 
+func hexRange(lo, hi string) cmapmodel.Range {
+	return cmapmodel.Range{Low: []byte(gen.Hex(mustHex(lo))), High: []byte(gen.Hex(mustHex(hi)))}
+}
+
+func mustHex(s string) []byte {
+	out := make([]byte, len(s)/2)
+	for i := range out {
+		fmt.Sscanf(s[2*i:2*i+2], "%02x", &out[i])
+	}
+	return out
+}
+
+// hugeSpaces are code spaces with a 3- or 4-byte range of 2^23 .. 2^32 codes
+// (the random range sets almost never contain one).
+var hugeSpaces = []cmapmodel.Set{
+	{hexRange("00000000", "ffffffff")},                       // 2^32
+	{hexRange("00", "7f"), hexRange("80000000", "ffffffff")}, // 2^31: the last position is MaxInt32
+	{hexRange("00000000", "80ffffff")},                       // 2^31 + 2^24
+	{hexRange("00", "3f"), hexRange("40000000", "ffffffff")}, // 3 * 2^30
+	{hexRange("00000000", "7fffffff"), hexRange("80", "ff")}, // 2^31
+	{hexRange("00000000", "fffffffe")},                       // last byte not full
+	{hexRange("000000", "ffffff")},                           // 2^24
+	{hexRange("0000", "7fff"), hexRange("800000", "ffffff")}, // 2^23
+	{hexRange("01000000", "ffffffff"), hexRange("00800000", "00ffffff")},
+}
+
+// hugeProbes returns codes at the edges, in the middle and at the far end of
+// a huge rectangle, around positions 2^24 and 2^31, and just outside it.
+func hugeProbes(t *rapid.T, rect cmapmodel.Range) []gen.Hex {
+	n := rect.NumCodes()
+	var out []gen.Hex
+	for _, i := range []uint64{0, 1, 1<<24 - 1, 1 << 24, 1<<24 + 1, n / 2, 1<<31 - 2, 1<<31 - 1, 1 << 31, 1<<31 + 1, 3 << 30, n - 2, n - 1} {
+		if i < n {
+			out = append(out, gen.Hex(rect.CodeAt(i)))
+		}
+	}
+	for k := 0; k < 3; k++ {
+		out = append(out, gen.Hex(rect.CodeAt(n/2+rapid.Uint64Range(0, n-n/2-1).Draw(t, "huge-probe"))))
+	}
+	if rect.Low[0] > 0 {
+		x := append([]byte(nil), rect.Low...)
+		x[0]--
+		out = append(out, gen.Hex(x))
+	}
+	if rect.High[0] < 0xFF {
+		x := append([]byte(nil), rect.High...)
+		x[0]++
+		out = append(out, gen.Hex(x))
+	}
+	last := rect.Len() - 1
+	if rect.High[last] < 0xFF {
+		x := append([]byte(nil), rect.High...)
+		x[last]++
+		out = append(out, gen.Hex(x))
+	}
+	return out
+}
+
+// genHugeRect draws a sub-rectangle of r which keeps all bytes after the
+// first and varies the first-byte interval (whole, 127, 128, 129 values, ...);
+// trimLast also cuts the last byte short by one value.
+func genHugeRect(t *rapid.T, r cmapmodel.Range, trimLast bool) cmapmodel.Range {
+	rect := cmapmodel.Set{r}.Clone()[0]
+	span := int(r.High[0]) - int(r.Low[0]) + 1
+	want := rapid.SampledFrom([]int{span, span, 128, 129, 127, 64, 1 + span/2}).Draw(t, "huge-span")
+	if want > span {
+		want = span
+	}
+	off := rapid.IntRange(0, span-want).Draw(t, "huge-off")
+	if rapid.Bool().Draw(t, "huge-top") {
+		off = span - want
+	}
+	rect.Low[0] = r.Low[0] + byte(off)
+	rect.High[0] = rect.Low[0] + byte(want-1)
+	last := rect.Len() - 1
+	if trimLast && last > 0 && rect.High[last] > rect.Low[last] && rapid.IntRange(0, 3).Draw(t, "huge-trim") == 0 {
+		rect.High[last]--
+	}
+	return rect
+}
+
+// largest returns the range of the set with the most codes.
+func largest(space cmapmodel.Set) cmapmodel.Range {
+	best := space[0]
+	for _, r := range space[1:] {
+		if r.NumCodes() > best.NumCodes() {
+			best = r
+		}
+	}
+	return best
+}
+
 type anchor struct {
 	ri   int
 	idx0 uint64
@@ -299,6 +391,10 @@ func genChain(t *rapid.T, text bool) Case {
 		_ = rapid.Uint64().Draw(t, "salt")
 	}
 	space := cmapmodel.GenSet(t, cmapmodel.GenOpts{MaxRanges: 4, MaxLen: 4, ValidOnly: true})
+	hugeSpace := !text && rapid.IntRange(0, 9).Draw(t, "hugespace") == 0
+	if hugeSpace {
+		space = rapid.SampledFrom(hugeSpaces).Draw(t, "space").Clone()
+	}
 	depth := []int{1, 1, 1, 1, 1, 2, 2, 2, 3, 3}[rapid.IntRange(0, 9).Draw(t, "depth")]
 	big := rapid.IntRange(0, 5).Draw(t, "big") == 0
 	var anchors []anchor
@@ -347,10 +443,11 @@ func genChain(t *rapid.T, text bool) Case {
 			}
 		}
 	}
-	if !text && rapid.IntRange(0, 2).Draw(t, "notdef") == 0 {
-		c.Notdef = genNotdef(t, c.Layers[depth-1].Space)
+	var extraProbes []gen.Hex
+	if !text && (hugeSpace || rapid.IntRange(0, 2).Draw(t, "notdef") == 0) {
+		c.Notdef, extraProbes = genNotdef(t, c.Layers[depth-1].Space, hugeSpace)
 	}
-	c.Probes = genProbes(t, space)
+	c.Probes = append(genProbes(t, space), extraProbes...)
 	c.Pretty = rapid.Bool().Draw(t, "pretty")
 	c.Version = rapid.IntRange(0, len(versions)-1).Draw(t, "version")
 	return c
@@ -450,9 +547,22 @@ func genMalformed(t *rapid.T, r cmapmodel.Range) (first, last []byte, ok bool) {
 	return first, last, true
 }
 
-func genNotdef(t *rapid.T, space cmapmodel.Set) *Notdef {
+func genNotdef(t *rapid.T, space cmapmodel.Set, huge bool) (*Notdef, []gen.Hex) {
 	nd := &Notdef{}
 	var rects []cmapmodel.Range
+	var probes []gen.Hex
+	if r := largest(space); huge || (r.NumCodes() >= 1<<22 && rapid.Bool().Draw(t, "notdef-huge")) {
+		// a notdef range over (most of) the largest range of the code space,
+		// like the catch-all <00000000> <ffffffff> n
+		rect := genHugeRect(t, r, true)
+		rects = append(rects, rect)
+		cid := drawCID(t, "notdef-cid")
+		if cid == 0 {
+			cid = 1 // CID 0 could not be told from "no notdef entry"
+		}
+		nd.Ranges = append(nd.Ranges, NotdefRange{First: gen.Hex(rect.Low), Last: gen.Hex(rect.High), CID: cid})
+		probes = hugeProbes(t, rect)
+	}
 	for i := rapid.IntRange(0, 2).Draw(t, "notdef-ranges"); i > 0; i-- {
 		r := space[rapid.IntRange(0, len(space)-1).Draw(t, "notdef-space")]
 		rect := genRect(t, r, rapid.Bool().Draw(t, "notdef-multi"), 1<<16)
@@ -479,9 +589,9 @@ func genNotdef(t *rapid.T, space cmapmodel.Set) *Notdef {
 		nd.Singles = append(nd.Singles, Entry{Code: gen.Hex(code), CID: drawCID(t, "notdef-cid")})
 	}
 	if len(nd.Ranges) == 0 && len(nd.Singles) == 0 {
-		return nil
+		return nil, nil
 	}
-	return nd
+	return nd, probes
 }
 
 func genRaw(t *rapid.T) Case {
@@ -492,6 +602,10 @@ func genRaw(t *rapid.T) Case {
 		c.Kind = "tu-raw"
 	}
 	space := cmapmodel.GenSet(t, cmapmodel.GenOpts{MaxRanges: 3, MaxLen: 4, ValidOnly: true})
+	hugeRaw := !text && rapid.IntRange(0, 79).Draw(t, "hugeraw") == 0
+	if hugeRaw {
+		space = rapid.SampledFrom(hugeSpaces).Draw(t, "space").Clone()
+	}
 	l := Layer{Space: space.Clone()}
 	if !text {
 		l.Name = genName(t, "name")
@@ -499,6 +613,13 @@ func genRaw(t *rapid.T) Case {
 	}
 	var rects []cmapmodel.Range
 	budget := uint64(maxRawCodes)
+	if r := largest(space); hugeRaw && r.Len() >= 3 && r.Low[r.Len()-1] == 0x00 && r.High[r.Len()-1] == 0xFF {
+		// one cidrange too large to enumerate; all bytes after the first
+		// keep their full span, so its codes are consecutive numbers
+		rect := genHugeRect(t, r, false)
+		rects = append(rects, rect)
+		c.Raw = append(c.Raw, RawRange{First: gen.Hex(rect.Low), Last: gen.Hex(rect.High), CID: drawCID(t, "huge-cid")})
+	}
 	for i := rapid.IntRange(1, 5).Draw(t, "nraw"); i > 0 && budget > 16; i-- {
 		r := space[rapid.IntRange(0, len(space)-1).Draw(t, "raw-space")]
 		multi := r.Len() > 1 && rapid.IntRange(0, 2).Draw(t, "raw-multi") > 0
@@ -793,6 +914,12 @@ func classify(c *Case) (bool, []string) {
 		if o.extractRejected {
 			cls = append(cls, "extract-rejects-reversed")
 		}
+		if o.hugeRawRange {
+			cls = append(cls, "huge-cidrange")
+		}
+		if o.hugeBeyondCap {
+			cls = append(cls, "huge-cidrange-beyond-2^31")
+		}
 		return o.enumerated > 0, cls
 	}
 
@@ -819,6 +946,37 @@ func classify(c *Case) (bool, []string) {
 	}
 	if c.Notdef != nil {
 		cls = append(cls, "notdef")
+		// unmapped probes deep inside a notdef range
+		mappedAnywhere := map[string]bool{}
+		for _, l := range c.Layers {
+			for _, e := range l.Entries {
+				mappedAnywhere[string(e.Code)] = true
+			}
+		}
+		space := unionSpace(c.Layers)
+		for _, r := range c.Notdef.Ranges {
+			rect := cmapmodel.Range{Low: r.First, High: r.Last}
+			n := rect.NumCodes()
+			if n > 1<<24 {
+				cls = append(cls, "notdef-range>2^24")
+			}
+			if n > 1<<31 {
+				cls = append(cls, "notdef-range>2^31")
+			}
+			var deep24, deep31 bool
+			for _, p := range c.Probes {
+				if idx, ok := rect.IndexOf(p); ok && !mappedAnywhere[string(p)] && space.IsCode(p) {
+					deep24 = deep24 || idx >= 1<<24
+					deep31 = deep31 || idx >= 1<<31
+				}
+			}
+			if deep24 {
+				cls = append(cls, "notdef-probe-beyond-2^24")
+			}
+			if deep31 {
+				cls = append(cls, "notdef-probe-beyond-2^31")
+			}
+		}
 	}
 	if len(c.Layers[0].Entries) == 0 {
 		cls = append(cls, "empty-map")
